@@ -81,7 +81,6 @@ class Trie(Generic[ValueType]):
         toremove: list[tuple[str, Node[ValueType]]] = []
 
         node: Node[ValueType] | None = self.root
-        toremove.append(("", cast("Node[ValueType]", node)))
         for char in key:
             toremove.append((char, cast("Node[ValueType]", node)))
             node = cast("Node", node).children.get(char)
